@@ -1,5 +1,9 @@
 """C17 - timing, path and fan-out analyses equal their graph-theoretic definitions."""
 from elab import passcheck
+
+
+def _reraise():
+    raise
 from fam import designs
 
 
@@ -10,7 +14,8 @@ def _call(task):
     try:
         return fn(**task['kw'])
     except Exception:
-        return dict(failed=True, crashed=True, observed=traceback.format_exc()[-900:], expected='-')
+        from vlib.guard import guarded
+        return guarded(_reraise)
 
 
 def run(ctx):
